@@ -16,3 +16,6 @@ package index
 //@   control_only SearchOptions.ShardMaxMatchCount, SearchOptions.ShardRepoMaxMatchCount
 // C04 (see zz_verif_contracts_c04.go): a search writes nothing that is reached through the shard.
 //@   no_store_through indexData except docMatchTreeCache
+// C29 (see zz_verif_contracts_c29.go): turning score debugging on changes no
+// score and no order - the flag only guards code that builds the debug strings.
+//@   debug_only SearchOptions.DebugScore writes debugScore, DebugScore, Debug, what
